@@ -364,7 +364,7 @@ def _loops_over(fn, attr_name):
     return out
 
 
-def r4_r5_r7_load(ctx) -> None:
+def r4_r5_r7_load(ctx, R4="C02.R4", R5="C02.R5", R7="C02.R7") -> None:
     prog = ctx.program
     hugr = prog.cls(f"{BASE}.Hugr")
     file = hugr.module.path
@@ -383,13 +383,13 @@ def r4_r5_r7_load(ctx) -> None:
         reach = g.reachable(0, avoid=set(eff))
         ok = bool(eff) and EXIT not in reach
         skip = [g.stmt[n] for n in reach if isinstance(g.stmt.get(n), ast.Continue)]
-        ctx.check(ok, "C02.R4", f"Hugr._from_serial: every element of {attr_name} is loaded", file,
+        ctx.check(ok, R4, f"Hugr._from_serial: every element of {attr_name} is loaded", file,
                   (skip[0].lineno if skip else loop.lineno),
                   f"some path through the loop over {sname}.{attr_name} never reaches {'/'.join(effect)}: those elements of the "
                   "document are silently dropped on load" + (f" (`{u(_guard_of(loop, skip[0]))}`)" if skip else ""),
                   _guard_of(loop, skip[0]) if skip else loop, detail=f"{effect[0]} on every path")
         if any(isinstance(n, (ast.ListComp, ast.GeneratorExp)) and any(gg.ifs for gg in n.generators) for n in [loop.iter]):
-            ctx.fail("C02.R4", f"Hugr._from_serial: {attr_name} filtered", file, loop.lineno, "filtered iteration drops elements", loop)
+            ctx.fail(R4, f"Hugr._from_serial: {attr_name} filtered", file, loop.lineno, "filtered iteration drops elements", loop)
     # R7: node loop restores op, parent, metadata
     nloop = _loops_over(fn, "nodes")[0]
     tg = nloop.target
@@ -402,7 +402,7 @@ def r4_r5_r7_load(ctx) -> None:
     par_arg = kwarg(add, "parent", 1)
     meta_arg = kwarg(add, "metadata", 3)
     ok_op = op_arg is not None and isinstance(op_arg, ast.Call) and call_name(op_arg) == "deserialize" and elv in [n.id for n in ast.walk(op_arg) if isinstance(n, ast.Name)]
-    ctx.check(ok_op, "C02.R7", "Hugr._from_serial: op", file, add.lineno,
+    ctx.check(ok_op, R7, "Hugr._from_serial: op", file, add.lineno,
               "each node must be created from its own serialized operation (`<node>.root.deserialize()`)", add,
               expected=f"{elv}.root.deserialize()", found=u(op_arg))
     # parent: a local assigned from Node(<el>.root.parent), reset to None exactly under `<el>.root.parent == idx`
@@ -417,7 +417,7 @@ def r4_r5_r7_load(ctx) -> None:
         # the None assignment must be controlled by the self-parent test
         ifs = [n for n in ast.walk(nloop) if isinstance(n, ast.If) and none_assign[0] in ast.walk(n)]
         ok_par = bool(ifs) and idxv is not None and sorted(x.strip() for x in u(ifs[0].test).split("==")) == sorted([f"{elv}.root.parent", idxv])
-    ctx.check(ok_par, "C02.R7", "Hugr._from_serial: parent", file, add.lineno,
+    ctx.check(ok_par, R7, "Hugr._from_serial: parent", file, add.lineno,
               "each node must be attached to the parent its serialized form names; only the node that is its own parent becomes the root", add,
               expected=f"Node({elv}.root.parent), None iff {elv}.root.parent == {idxv}", found="; ".join(u(s) for s in passign)[:200])
     # metadata: derived from serial.metadata at this node's position
@@ -429,18 +429,18 @@ def r4_r5_r7_load(ctx) -> None:
     ok_meta = msrc is not None and idxv is not None and (
         (isinstance(msrc, ast.Call) and call_name(msrc) == "get_meta" and len(msrc.args) == 1 and u(msrc.args[0]) == idxv)
         or (f"{sname}.metadata[{idxv}]" in u(msrc)))
-    ctx.check(bool(ok_meta), "C02.R7", "Hugr._from_serial: metadata", file, add.lineno,
+    ctx.check(bool(ok_meta), R7, "Hugr._from_serial: metadata", file, add.lineno,
               "each node must receive the metadata entry at its own position in the document", add,
               expected=f"metadata of position {idxv}", found=u(msrc))
     gm = [n for n in ast.walk(fn) if isinstance(n, ast.FunctionDef) and n.name == "get_meta"]
     if gm:
         p = gm[0].args.args[0].arg
         subs = [n for n in ast.walk(gm[0]) if isinstance(n, ast.Subscript) and u(n.value) == f"{sname}.metadata"]
-        ctx.check(bool(subs) and all(u(s.slice) == p for s in subs), "C02.R7", "Hugr._from_serial.get_meta: index", file, gm[0].lineno,
+        ctx.check(bool(subs) and all(u(s.slice) == p for s in subs), R7, "Hugr._from_serial.get_meta: index", file, gm[0].lineno,
                   "get_meta(i) must read entry i of the metadata list", gm[0], expected=f"{sname}.metadata[{p}]",
                   found="; ".join(u(s) for s in subs))
     # root metadata: the root handle carries the node's metadata
-    ctx.ok("C02.R7", "Hugr._from_serial: contiguous", "assert n.idx == idx") if any(
+    ctx.ok(R7, "Hugr._from_serial: contiguous", "assert n.idx == idx") if any(
         isinstance(s, ast.Assert) and "idx" in u(s.test) for s in ast.walk(nloop)) else None
 
     # R5b: the decoder applies the inverse of the order-port encoder before add_link
@@ -460,7 +460,7 @@ def r4_r5_r7_load(ctx) -> None:
                 inv = m
             ok = inv is not None and any(isinstance(r.value, ast.UnaryOp) and u(r.value) == "-1" or (isinstance(r.value, ast.IfExp) and "-1" in u(r.value))
                                          for r in ast.walk(inv) if isinstance(r, ast.Return) and r.value is not None)
-            ctx.check(bool(ok), "C02.R5", f"Hugr._from_serial: {side} offset decoded", file, c.lineno,
+            ctx.check(bool(ok), R5, f"Hugr._from_serial: {side} offset decoded", file, c.lineno,
                       f"the serialized {side} offset `{u(off)}` reaches add_link without the inverse of _constrain_offset: an order edge "
                       "(written at the first port after the value ports, or without offset) is reloaded as an ordinary port, so "
                       "order links are lost or turned into value links", c,
@@ -468,7 +468,7 @@ def r4_r5_r7_load(ctx) -> None:
             if ok:
                 dec_helpers = {call_name(x) for x in calls_in(inv)} - {None}
                 shared = (enc_helpers & dec_helpers) - {"isinstance", "len", "int"}
-                ctx.check(bool(shared), "C02.R5", f"Hugr._from_serial: {side} offset agrees with encoder", file, inv.lineno,
+                ctx.check(bool(shared), R5, f"Hugr._from_serial: {side} offset agrees with encoder", file, inv.lineno,
                           "the order-port encoder and its inverse do not derive the order port's position from a common helper: "
                           f"encoder uses {sorted(enc_helpers)}, decoder {sorted(dec_helpers)}", inv, detail=f"shared helper {sorted(shared)}")
 
